@@ -208,6 +208,12 @@ def family_configs(fam, centres, tier):
                     for (x0, x1, y0, y1) in boxes:
                         yield {'cls': 'polygon', 'vertices': [[x0, x1, x1, x0], [y0, y0, y1, y1]], 'vertex_dtype': dt, 'name': 'int_box'}, allm
                         yield {'cls': 'polygon', 'vertices': [[x0, x1, x0], [y0, y1, y1]], 'vertex_dtype': dt, 'name': 'int_triangle'}, allm
+            # nearly circular ellipses: the axes differ by a few 1e-6 relative and a pixel edge lies between the two half-axes
+            for (w, h) in ((20.99998, 21.00002), (21.00002, 20.99998), (5.000004, 4.999996), (21.0, 21.0)):
+                for (d, a) in A[:3]:
+                    yield {'cls': 'ellipse', 'center': c, 'width': w, 'height': h, 'angle': a, 'adeg': d}, allm
+                    yield {'cls': 'ellipseannulus', 'center': c, 'inner_width': w / 2, 'inner_height': h / 2, 'outer_width': w, 'outer_height': h,
+                           'angle': a, 'adeg': d}, allm
             for r in S:
                 yield {'cls': 'circle', 'center': c, 'radius': r}, allm
             for ri in S:
